@@ -97,6 +97,8 @@ Cands ==
 \cup {<<"append", <<P(i), P(j), P(k)>>>> : i \in Slots, j \in Slots, k \in {1}}
 \cup {<<"list", <<P(j), P(k)>>>> : j \in Slots, k \in Slots}
 \cup {<<"vector", <<P(j), P(k)>>>> : j \in Slots, k \in Slots}
+\cup {<<o, <<P(k)>>>> : o \in {"list", "vector"}, k \in Slots}          \* exactly one (rest) argument
+\cup {<<o, <<P(i), P(j), P(k)>>>> : o \in {"list", "vector"}, i \in {1}, j \in Slots, k \in {2, 4}}
 \cup UNION {{<<o, <<P(k), I(i)>>>> : o \in OpsIdx, i \in IdxFor(LenOf(pool[k]))} : k \in Slots}
 \cup {<<o, <<x, P(k)>>>> : o \in OpsKey, x \in Keys, k \in Slots}
 \cup {<<"member", <<P(j), P(k)>>>> : j \in Slots, k \in Slots}
@@ -157,7 +159,7 @@ Apply(op, a, dst) ==
   /\ pool' = pool2
   /\ hist' = Append(hist, [op |-> op, a |-> a, dst |-> IF store THEN dst ELSE 0, exp |-> exp,
                            state |-> [k \in 1..N |-> Render(pool2[k], hp2)],
-                           share |-> ShareMatrix(pool2, N, hp2)])
+                           share |-> ShareMatrix(pool2, N, hp2), elem |-> ElemMatrix(pool2, N, hp2)])
 
 Init ==
   /\ variant \in {1, 2, 3, 4}
